@@ -7,7 +7,8 @@
    zero value of its type is not transmitted and therefore decodes as nil / zero; everything
    else round-trips.  The theorems take gob as a Section variable with this law as hypothesis;
    the harness validates the law on the real encoding/gob for every content type in every run. *)
-From HV Require Import Base.Prelude Record.Treasure.
+From HV Require Import Base.Prelude.
+From HV Require Export Record.Treasure.
 Local Open Scope Z_scope.
 
 Definition drop {A} (is_zero : A -> bool) (o : option A) : option A :=
@@ -139,6 +140,7 @@ Definition content_eqb (a b : content) : bool :=
 Inductive hcase :=
 | GobCase (cin cout : content)          (* real gob: Content in, Content out *)
 | ValueCase (fixed : bool) (v vout : value)   (* real ConvertToByte + LoadFromByte on one treasure *)
+| OldFileCase (fixed : bool) (v vout : value) (* bytes written by the pinned commit's Model, read by LoadFromByte *)
 | ReloadCase (fixed : bool) (ops : list op)
              (before after : list (key * option view))    (* Get of every key, before / after re-summon *)
              (idx_before idx_after : list (key * view)).  (* GetByIndex (key order), before / after *)
@@ -176,6 +178,10 @@ Definition chk (c : hcase) : N :=
       else if is_gob_zero v && value_eqb vout VVoid then
         (if value_eqb (persist_value gob_spec fixed v) vout then 2 else 1)
       else 3
+  | OldFileCase fixed v vout =>
+      (* a file written before the fix loads as it always did: non-zero values exactly *)
+      if negb (is_gob_zero v) && negb (value_eqb v vout) then 7
+      else if value_eqb (of_content (from_wire fixed (gob_spec (to_content v)))) vout then 0 else 1
   | ReloadCase fixed ops before after ib ia =>
       let o := first_nz (zip_verdicts before after) in
       if negb (N.eqb o 0) then o
